@@ -11,7 +11,7 @@
     is called here: the observed result must be THE nearest representable value
     (ties to even) of the exact dyadic/rational result, checked against its two
     neighbours in the format. *)
-From Coq Require Import ZArith List Bool String Floats.SpecFloat.
+From Coq Require Import ZArith List Bool String Floats.SpecFloat Uint63.
 From RlibV Require Import Common.Batch C18.Model.
 Import ListNotations.
 Open Scope Z_scope.
@@ -39,8 +39,8 @@ Record obs := mkObs {
 Inductive case := Case (op : opk) (a b : Z) (o : obs).
 
 Definition sel (op k : opk) : bool := opk_eqb op OAll || opk_eqb op k.
-(** [on op k c]: check [c] only when group [k] is selected *)
-Definition on (op k : opk) (c : bool) : bool := if sel op k then c else true.
+(** [on op k c]: check [c] only when group [k] is selected (a notation: [vm_compute] is call by value) *)
+Notation on op k c := (if sel op k then c else true) (only parsing).
 
 Definition pcmp_code (c : option comparison) : Z :=
   match c with None => 0 | Some Lt => 1 | Some Eq => 2 | Some Gt => 3 end.
@@ -53,13 +53,13 @@ Definition model_check (c : case) : bool :=
   let same r v := raw_same (encode80 v) r in
   let sameb n v := bits_same (encode64 v) n in
   on op OConv (same (o_wa o) x && same (o_wb o) y && sameb (o_back o) (narrow x))
-  && on op OAdd (same (o_add o) (add80 x y) && sameb (o_nadd o) (narrow (add80 x y)))
-  && on op OSub (same (o_sub o) (sub80 x y) && sameb (o_nsub o) (narrow (sub80 x y)))
-  && on op OMul (same (o_mul o) (mul80 x y) && sameb (o_nmul o) (narrow (mul80 x y)))
-  && on op ODiv (same (o_div o) (div80 x y) && sameb (o_ndiv o) (narrow (div80 x y)))
+  && on op OAdd (let r := add80 x y in same (o_add o) r && sameb (o_nadd o) (narrow r))
+  && on op OSub (let r := sub80 x y in same (o_sub o) r && sameb (o_nsub o) (narrow r))
+  && on op OMul (let r := mul80 x y in same (o_mul o) r && sameb (o_nmul o) (narrow r))
+  && on op ODiv (let r := div80 x y in same (o_div o) r && sameb (o_ndiv o) (narrow r))
   && on op ONeg (same (o_neg o) (neg80 x))
-  && on op OChain (same (o_mad o) (mad80 x y) && same (o_chain o) (chain80 x y)
-                   && sameb (o_nchain o) (narrow (chain80 x y)))
+  && on op OChain (let m := mad80 x y in let r := div80 m y in
+                   same (o_mad o) m && same (o_chain o) r && sameb (o_nchain o) (narrow r))
   && on op ORel (Bool.eqb (o_lt o) (lt80 x y) && Bool.eqb (o_le o) (le80 x y) && Bool.eqb (o_gt o) (gt80 x y)
                  && Bool.eqb (o_ge o) (ge80 x y) && Bool.eqb (o_eq o) (eq80 x y)
                  && (o_pcmp o =? pcmp_code (partial_cmp80 x y)))
@@ -76,27 +76,28 @@ Definition model_check (c : case) : bool :=
     [pred R = (mr-1) 2^er], except at a binade boundary ([mr = 2^(prec-1)],
     [er > emin]) where it is [(2^prec - 1) 2^(er-1)].  Overflow: the result is
     an infinity iff [v >= (2^prec - 1/2) 2^(emax-prec)]. *)
-Definition scale (num den k : Z) : Z * Z :=
-  if 0 <=? k then (num * 2 ^ k, den) else (num, den * 2 ^ (- k)).
+(** compare [num/den * 2^k] with the integer [c] ([den > 0]) without building [c * den * 2^(-k)] by a
+    long multiplication *)
+Definition cmp_scaled (num den k c : Z) : comparison :=
+  if 0 <=? k then Z.shiftl num k ?= c * den else num ?= Z.shiftl (c * den) (- k).
 
 Definition rne_ok (prec emax num den E : Z) (r : spec_float) : bool :=
   let emin := 3 - emax - prec in
   match r with
   | S754_nan => false
   | S754_infinity _ =>
-      let '(A, B) := scale num den (E - (emax - prec) + 1) in
-      (2 ^ (prec + 1) - 1) * B <=? A
+      match cmp_scaled num den (E - (emax - prec) + 1) (2 ^ (prec + 1) - 1) with Lt => false | _ => true end
   | _ =>
       let '(mr, er) := match r with S754_finite _ m e => (Zpos m, e) | _ => (0, emin) end in
       let canonical :=
         ((2 ^ (prec - 1) <=? mr) && (mr <? 2 ^ prec) && (emin <=? er) && (er <=? emax - prec))
         || ((mr <? 2 ^ (prec - 1)) && (er =? emin)) in
-      let '(A, B) := scale num den (E - er + 2) in
+      let k := E - er + 2 in
       let ev := Z.even mr in
-      let hi := match A ?= (4 * mr + 2) * B with Lt => true | Eq => ev | Gt => false end in
+      let hi := match cmp_scaled num den k (4 * mr + 2) with Lt => true | Eq => ev | Gt => false end in
       let lowc := if (mr =? 2 ^ (prec - 1)) && (emin <? er) then 4 * mr - 1 else 4 * mr - 2 in
       let lo := if mr =? 0 then true
-                else match A ?= lowc * B with Gt => true | Eq => ev | Lt => false end in
+                else match cmp_scaled num den k lowc with Gt => true | Eq => ev | Lt => false end in
       canonical && hi && lo
   end.
 
@@ -139,7 +140,7 @@ Definition spec_add (prec emax : Z) (x y r : spec_float) : bool :=
       let '(sx, mx, ex) := parts x in
       let '(sy, my, ey) := parts y in
       let E := Z.min ex ey in
-      let N := (if sx then - mx else mx) * 2 ^ (ex - E) + (if sy then - my else my) * 2 ^ (ey - E) in
+      let N := Z.shiftl (if sx then - mx else mx) (ex - E) + Z.shiftl (if sy then - my else my) (ey - E) in
       if N =? 0 then
         (* exact zero: -0 only for (-0) + (-0) *)
         is_zero_sf ((mx =? 0) && (my =? 0) && sx && sy) r
@@ -191,7 +192,7 @@ Definition xcmp (x y : spec_float) : option comparison :=
       let '(sx, mx, ex) := parts x in
       let '(sy, my, ey) := parts y in
       let E := Z.min ex ey in
-      Some ((if sx then - mx else mx) * 2 ^ (ex - E) ?= (if sy then - my else my) * 2 ^ (ey - E))
+      Some (Z.shiftl (if sx then - mx else mx) (ex - E) ?= Z.shiftl (if sy then - my else my) (ey - E))
   end.
 Definition cmp_in (c : option comparison) (l : list comparison) : bool :=
   match c with
@@ -211,7 +212,7 @@ Definition spec_widen (v : spec_float) (w : raw) : bool :=
       match decode80 w with
       | S754_finite s' m' e' =>
           Bool.eqb s s' && (2 ^ 63 <=? Zpos m') && (Zpos m' <? 2 ^ 64) && (e' <=? e)
-          && (Zpos m' =? Zpos m * 2 ^ (e - e'))
+          && (Zpos m' =? Z.shiftl (Zpos m) (e - e'))
       | _ => false
       end
   end.
@@ -270,3 +271,11 @@ Definition explain (c : case) :=
      encode64 (narrow (mul80 x y)); encode64 (narrow (div80 x y)); encode64 (narrow (chain80 x y))]),
    ("lt,le,gt,ge,eq,pcmp"%string, [lt80 x y; le80 x y; gt80 x y; ge80 x y; eq80 x y], pcmp_code (partial_cmp80 x y)),
    ("min,max,abs"%string, [encode80 (min80 x y); encode80 (max80 x y); encode80 (abs80 x)])).
+
+(** ** literals of the batch files
+    Decimal [Z] literals of 20 digits cost about 1 ms each to parse; primitive-integer literals
+    cost 0.03 ms.  The batch files therefore write every 64-bit word as two 32-bit halves.
+    (Only the batch files use these; no theorem mentions primitive integers.) *)
+Definition W (hi lo : int) : Z := Z.shiftl (Uint63.to_Z hi) 32 + Uint63.to_Z lo.
+Definition R (se hi lo : int) : raw := (Uint63.to_Z se, W hi lo).
+Definition B (b : int) : bool := negb (Uint63.eqb b 0).
